@@ -5,14 +5,14 @@ import canon
 
 ID = "C13"
 LEVEL = "other"
-GEN = ["MdRenderGen"]
+GEN = ["MdRenderGen", "RxGen", "UnicodeGen", "InlineGen", "BlockGen", "NormalizeGen", "UtilGen"]
 COQ = ["Props/C13.vo"]
 EXPLANATION = (
     "Oracle-level decision with proved mechanism lemmas. For random canonical document trees with plain-word text "
     "(tools/canon.py: headings, paragraphs, fenced and indented code, breaks, HTML blocks, quotes, bullet/ordered tight/"
     "loose nested lists, emphasis, links, images, reference links) the check parses the printed document, renders it with "
     "MarkdownRenderer, parses the result and compares the normalised token trees; a second reformat must be byte-identical. "
-    "Proved (coq/Props/C13.v): the fence chosen by _get_fenced_marker cannot be closed by any fence run that starts a line "
+    "Proved (coq/Props/C13.v): on the executable model of the reformatter (coq/Model/MdDoc.v: every method of MarkdownRenderer and the shared list renderer over the core AST of the parser models; tied by skeletons with constants, regenerated patterns and the Markdown correspondence run of this check - model output = create_markdown(renderer=MarkdownRenderer())(text) on generated texts), for EVERY document reformatting drops and reorders no word character: the letters and digits of all text, code and HTML leaves, in order, are a subsequence of those of the reformatted text (C13_reformatting_keeps_every_word); and the fence chosen by _get_fenced_marker cannot be closed by any fence run that starts a line "
     "of the code. Tie: control skeletons of every MarkdownRenderer method and of renderers/_list.py are compared with "
     "committed skeletons. The full round-trip theorem needs the parser model and is not claimed.")
 ASSUMPTIONS = ["tools/canon.py is the statement of the canonical subset"]
@@ -56,7 +56,8 @@ def check_tree(m, r, tree, fails, with_refs):
 
 
 def correspondence(ctx):
-    return {"evaluations": 0, "disagreements": [], "note": "no executable renderer model yet"}
+    import corr_md
+    return corr_md.run(ctx, ctx.n(2000, 40000))
 
 
 def oracle(ctx, extra):
